@@ -69,6 +69,9 @@ func collectHarnessFiles(prop string) ([]HarnessFile, error) {
 	return out, nil
 }
 
+// helper packages injected next to vrt as github.com/metrico/qryn/zzverif/<name>
+var virtualPkgs = []string{"vlib", "vsql"}
+
 func overlayMap(hfs []HarnessFile) map[string][]byte {
 	ov := map[string][]byte{}
 	for _, h := range hfs {
@@ -77,11 +80,13 @@ func overlayMap(hfs []HarnessFile) map[string][]byte {
 	}
 	data, _ := os.ReadFile(filepath.Join(verifDir(), "vrt", "vrt.go"))
 	ov[filepath.Join(repoDir, "zzverif", "vrt", "vrt.go")] = data
-	if ents, err := os.ReadDir(filepath.Join(verifDir(), "vlib")); err == nil {
-		for _, e := range ents {
-			if strings.HasSuffix(e.Name(), ".go") {
-				d, _ := os.ReadFile(filepath.Join(verifDir(), "vlib", e.Name()))
-				ov[filepath.Join(repoDir, "zzverif", "vlib", e.Name())] = d
+	for _, vp := range virtualPkgs {
+		if ents, err := os.ReadDir(filepath.Join(verifDir(), vp)); err == nil {
+			for _, e := range ents {
+				if strings.HasSuffix(e.Name(), ".go") {
+					d, _ := os.ReadFile(filepath.Join(verifDir(), vp, e.Name()))
+					ov[filepath.Join(repoDir, "zzverif", vp, e.Name())] = d
+				}
 			}
 		}
 	}
@@ -219,6 +224,8 @@ func runPath(P *Program, fn *ssa.Function, wi WorkItem, s *Solver, o *ExploreOpt
 	if os.Getenv("GOSYM_DEBUG") != "" {
 		m.extra["debug"] = true
 	}
+	m.noIfConv = os.Getenv("GOSYM_NOIFCONV") != ""
+	m.ifConvAll = os.Getenv("GOSYM_IFCONV_ALL") != ""
 	if os.Getenv("GOSYM_PROFILE") != "" {
 		m.sites = stubs // fork sites are reported with the stubs when profiling
 	}
@@ -355,6 +362,12 @@ func explore(P *Program, fn *ssa.Function, o ExploreOpts) *HarnessResult {
 						stop = true
 					}
 				}
+				if hr.Unknowns >= 3 && !stop {
+					// inconclusive anyway: do not spend the remaining paths on more solver timeouts
+					fmt.Fprintf(logw, "  .. %s: %d solver answers unknown, abandoning the remaining paths (inconclusive)\n", fn.Name(), hr.Unknowns)
+					hr.Capped = true
+					stop = true
+				}
 				if int(n) >= o.MaxPaths || (!o.Deadline.IsZero() && time.Now().After(o.Deadline)) {
 					if len(queue) > 0 {
 						hr.Capped = true
@@ -478,10 +491,12 @@ func buildReplayBinary(hfs []HarnessFile, pkgDir string) (string, error) {
 		ov[h.Virtual] = h.Path
 	}
 	ov[filepath.Join(repoDir, "zzverif", "vrt", "vrt.go")] = filepath.Join(verifDir(), "vrt", "vrt.go")
-	if ents, err := os.ReadDir(filepath.Join(verifDir(), "vlib")); err == nil {
-		for _, e := range ents {
-			if strings.HasSuffix(e.Name(), ".go") {
-				ov[filepath.Join(repoDir, "zzverif", "vlib", e.Name())] = filepath.Join(verifDir(), "vlib", e.Name())
+	for _, vp := range virtualPkgs {
+		if ents, err := os.ReadDir(filepath.Join(verifDir(), vp)); err == nil {
+			for _, e := range ents {
+				if strings.HasSuffix(e.Name(), ".go") {
+					ov[filepath.Join(repoDir, "zzverif", vp, e.Name())] = filepath.Join(verifDir(), vp, e.Name())
+				}
 			}
 		}
 	}
